@@ -327,6 +327,7 @@ type harness struct {
 	nextID  int
 	retries int
 	fx      bool // the implementation has the proposed repair of calcStatusCode (probed)
+	fxSubs  bool // generated subtitle tracks are looked up in the reference track (probed)
 	dist    map[string]bool
 	base    map[string]baseResp
 	repDef  map[string]string
@@ -426,23 +427,37 @@ func domainOf(ref *lib.TLRep, cfg lib.TLCfg, codes []codeSpec, n int64) string {
 // statusRequest issues one media-segment request with statuscode_ and its baseline, evaluates the
 // oracle and records the correspondence case.
 func (h *harness) statusRequest(a *lib.TLAsset, r *lib.TLRep, cfg lib.TLCfg, codes []codeSpec, n int64, sel int64) {
+	// the table the schedule is counted in: the reference video track for video, audio and generated
+	// subtitles, the track's own table for stored text and thumbnail tracks
 	ref := a.Ref()
+	if r.Kind == "text" || r.Kind == "image" {
+		ref = r
+	}
 	mode := cfg.Mode
+	if r.Kind == "image" {
+		mode = "number" // thumbnails are always addressed by number
+	}
 	segID := cfg.EffSnr() + n
 	if mode == "tlt" {
-		if r.Kind == "audio" {
+		switch r.Kind {
+		case "audio":
 			segID = audioTime(ref, r, frameDur(r), n)
-		} else {
+		case "timesubs": // generated subtitles: milliseconds
+			segID = ref.LoopS(n) * 1000 / ref.Timescale
+		default:
 			segID = r.LoopS(n)
 		}
 	}
 	now := availMS(ref, cfg.StartS, n) + 37
 	plain := cfg
-	cfg.Extra = codesURL(codes)
+	cfg.Extra = plain.Extra + codesURL(codes)
 	url := lib.SegURL(a, cfg, r, segID, now)
 	base := h.baseline(lib.SegURL(a, plain, r, segID, now))
 	resp := h.get(url)
 	dom := domainOf(ref, cfg, codes, n)
+	if r.Kind == "timesubs" {
+		dom = "timesubs"
+	}
 	in := c14in{Kind: "status", Domain: dom, Asset: a.Path, Rep: r.ID, Cfg: &cfg, Codes: codes, N: n, SegID: segID, NowMS: now, URL: url}
 	id := fmt.Sprint(h.id())
 	h.nEval++
@@ -482,6 +497,11 @@ func (h *harness) statusRequest(a *lib.TLAsset, r *lib.TLRep, cfg lib.TLCfg, cod
 		return
 	}
 	h.c.Res.Inputs[id] = in
+	if r.Kind == "timesubs" && !h.fxSubs {
+		// the implementation does not know these tracks in calcStatusCode: model subsAnswerUnrepaired
+		h.terms = append(h.terms, fmt.Sprintf("CSubs %s %s %s %d %d %d", id, cfg.CoqCfg(), codesCoq(codes), now, base.Status, status))
+		return
+	}
 	am := "ByNumber"
 	if mode == "tlt" {
 		am = "ByTime"
@@ -489,6 +509,9 @@ func (h *harness) statusRequest(a *lib.TLAsset, r *lib.TLRep, cfg lib.TLCfg, cod
 	audio := "None"
 	if r.Kind == "audio" {
 		audio = fmt.Sprintf("(Some (%d, %d))", r.Timescale, frameDur(r))
+	}
+	if r.Kind == "timesubs" { // follows the reference track: subtitle timescale 1000, any time
+		audio = "(Some (1000, 1))"
 	}
 	h.terms = append(h.terms, fmt.Sprintf("CStatus %s %s %s %d %s %s %s %s %s %d %d %d %d %s",
 		id, lib.Cbool(h.fx), h.repName(a.Path+"/"+ref.ID, ref.VodRep), a.LoopMS, cfg.CoqCfg(), codesCoq(codes), lib.CoqString(r.ID), audio, am, segID, now,
@@ -616,6 +639,77 @@ func (h *harness) statusSweep(assets []*lib.TLAsset) {
 				codes := []codeSpec{{Cycle: cycle, Rsq: 1, Code: 404}}
 				for n := int64(0); n <= 3*cycle*ref.Timescale/minDur && n < 40; n++ {
 					h.statusRequest(a, mainRep, cfg, codes, n, 2)
+				}
+			}
+		}
+	}
+}
+
+// familySweep: statuscode_ combined with every other configuration family that changes timing or
+// addressing. The schedule (which segment of which cycle is hit) must not depend on any of them:
+// availabilityTimeOffset below / equal to / above a segment duration and infinite, time-shift buffer
+// depth, chunked low-latency mode (within its guard 0 <= ato < segment duration), periods, start time,
+// start number, $Time$ addressing, and the track kind (video, audio, stored subtitles, thumbnails,
+// generated subtitles).
+func (h *harness) familySweep(assets []*lib.TLAsset) {
+	c := h.c
+	for _, a := range assets {
+		if strings.HasPrefix(a.Path, "WAVE") && !c.Thorough() {
+			continue
+		}
+		ref := a.Ref()
+		segMS := (ref.Segs[0].End - ref.Segs[0].Start) * 1000 / ref.Timescale
+		type fam struct {
+			name string
+			cfg  lib.TLCfg
+		}
+		fams := []fam{
+			{"ato-below", lib.TLCfg{Snr: -1, Tsbd: -1, AtoMS: segMS / 4, Mode: "number"}},
+			{"ato-segment", lib.TLCfg{Snr: -1, Tsbd: -1, AtoMS: segMS, Mode: "number"}},
+			{"ato-above", lib.TLCfg{Snr: -1, Tsbd: -1, AtoMS: 2*segMS + 500, Mode: "tlnr"}},
+			{"ato-inf", lib.TLCfg{Snr: -1, Tsbd: -1, AtoMS: -1, Mode: "number"}},
+			{"ato-above/tlt", lib.TLCfg{Snr: -1, Tsbd: -1, AtoMS: 3 * segMS, Mode: "tlt"}},
+			{"tsbd-short", lib.TLCfg{Snr: -1, Tsbd: 10, Mode: "number"}},
+			{"tsbd-long/ato", lib.TLCfg{Snr: -1, Tsbd: 600, AtoMS: segMS + 1, Mode: "tlt"}},
+			{"chunked", lib.TLCfg{Snr: -1, Tsbd: -1, AtoMS: segMS / 2, Mode: "number", Extra: "chunkdur_0.5/"}},
+			{"start/ato-above", lib.TLCfg{StartS: 1000, Snr: -1, Tsbd: -1, AtoMS: 2 * segMS, Mode: "number"}},
+			{"snr/ato-above", lib.TLCfg{Snr: 5, Tsbd: -1, AtoMS: 2 * segMS, Mode: "tlnr"}},
+			{"start/snr/tlt", lib.TLCfg{StartS: 77, Snr: 3, Tsbd: -1, Mode: "tlt"}},
+		}
+		if a.Path == "testpic_2s" {
+			fams = append(fams, fam{"periods", lib.TLCfg{Snr: -1, Tsbd: -1, Mode: "number", Extra: "periods_60/"}},
+				fam{"periods/ato", lib.TLCfg{Snr: -1, Tsbd: -1, AtoMS: 2 * segMS, Mode: "tlnr", Extra: "periods_60/"}})
+		}
+		// generated subtitles follow the reference track
+		subs := &lib.TLRep{VodRep: &lib.VodRep{ID: "timestpp-en", Timescale: ref.Timescale, Segs: ref.Segs}, Kind: "timesubs", Ext: ".m4s"}
+		cycles := []int64{5, 8, 30}
+		if c.Thorough() {
+			cycles = []int64{3, 5, 8, 30, 31}
+		}
+		for fi, f := range fams {
+			for _, cycle := range cycles {
+				if cycle*ref.Timescale < ref.Segs[0].End && !c.Thorough() {
+					continue
+				}
+				var nMax int64
+				for nMax = 0; ref.LoopS(nMax) < 3*cycle*ref.Timescale; nMax++ {
+				}
+				rsq := int64((fi + int(cycle)) % 2)
+				codes := []codeSpec{{Cycle: cycle, Rsq: rsq, Code: codeValues[(fi+int(cycle))%len(codeValues)]}}
+				for _, r := range a.Reps {
+					if strings.HasPrefix(f.name, "chunked") && r.Kind != "video" && r.Kind != "audio" {
+						continue
+					}
+					for n := int64(0); n <= nMax; n++ {
+						h.statusRequest(a, r, f.cfg, codes, n, 2)
+					}
+				}
+				if a.Path == "testpic_2s" && !strings.HasPrefix(f.name, "chunked") {
+					cfg := f.cfg
+					cfg.Extra += "timesubsstpp_en/"
+					for n := int64(0); n <= nMax; n++ {
+						h.statusRequest(a, subs, cfg, codes, n, 2)
+					}
 				}
 			}
 		}
@@ -1240,8 +1334,14 @@ func (h *harness) replay(in c14in, assets []*lib.TLAsset) {
 	case "status":
 		a := find(in.Asset)
 		cfg := *in.Cfg
-		cfg.Extra = ""
-		h.statusRequest(a, a.Rep(in.Rep), cfg, in.Codes, in.N, 0)
+		if i := strings.Index(cfg.Extra, "statuscode_"); i >= 0 {
+			cfg.Extra = cfg.Extra[:i]
+		}
+		rr := a.Rep(in.Rep)
+		if rr == nil && strings.HasPrefix(in.Rep, "time") {
+			rr = &lib.TLRep{VodRep: &lib.VodRep{ID: in.Rep, Timescale: a.Ref().Timescale, Segs: a.Ref().Segs}, Kind: "timesubs", Ext: ".m4s"}
+		}
+		h.statusRequest(a, rr, cfg, in.Codes, in.N, 0)
 		fmt.Printf("replay %s -> %d %s\n", in.URL, h.get(in.URL).Status, h.get(in.URL).Panic)
 	case "calc":
 		code, errS, pan := callCalc(in)
@@ -1330,6 +1430,10 @@ func run(c *lib.Ctx) error {
 	} else {
 		c.Res.Notes = append(c.Res.Notes, "calcStatusCode under test does not have the cycle-start repair 497da16: model variant false (C14_unrepaired_* theorems); the oracle reports its defects")
 	}
+	// generated subtitle tracks: segment 40 of testpic_2s is the first of its 8 s cycle, not scheduled by rsq 1
+	probe = ls.GetRaw("/livesim2/timesubsstpp_en/statuscode_[{cycle:8,rsq:1,code:503}]/testpic_2s/timestpp-en/40.m4s?nowMS=100000")
+	h.fxSubs = probe.Panic == "" && probe.Status == 200
+	c.Res.Notes = append(c.Res.Notes, fmt.Sprintf("generated subtitle tracks looked up in the reference track by calcStatusCode: %v", h.fxSubs))
 	if c.Replay != "" {
 		in, err := lib.LoadReplayInput[c14in](c.Replay)
 		if err != nil {
@@ -1359,6 +1463,9 @@ func run(c *lib.Ctx) error {
 	if on("s") {
 		h.statusSweep(withAudio)
 	}
+	if on("f") {
+		h.familySweep(withAudio)
+	}
 	t1 := time.Now()
 	if on("c") {
 		h.calcSweep()
@@ -1380,7 +1487,7 @@ func run(c *lib.Ctx) error {
 	c.Res.Evaluations = h.nEval
 	c.Res.ModelCases = len(h.terms)
 	c.Res.DistinctNontrivial = len(h.dist)
-	c.Res.Rule = "statuscode_: bundled assets (1, 2, 4, ... segments; 2 s, 6 s, 8 s, alternating, 2.002 s) x cycle {3,5,8,30,31} x every rsq up to the number of segments per cycle x every segment over >= 6 cycles; representation filters (*, video id, audio id, no match), video and audio, Number / Timeline-Number / Timeline-Time, two and three simultaneous patterns; start_30, snr_7, start_1000/snr_3 (findings stream); calcStatusCode on random synthetic tables (1-6 segments, irregular durations, 5 timescales). traffic_: every pattern of 1-4 intervals over {u,d} with durations 1-3 at every second of 3 cycles, three patterns per URL selected by bu<i>; s/h patterns recognised by their delay; all patterns over {u,d,s,h} and random strings through CreateLossItvls/StateAt; BaseURL elements of the MPD. distinct = distinct (configuration, request) pairs for which the oracle confirmed the prescribed answer"
+	c.Res.Rule = "statuscode_ combined with every other timing/addressing family (ato below/equal/above a segment and inf, tsbd, chunked mode, periods, start, snr, $Time$) and every track kind (video, audio, stored text, thumbnails, generated subtitles); statuscode_: bundled assets (1, 2, 4, ... segments; 2 s, 6 s, 8 s, alternating, 2.002 s) x cycle {3,5,8,30,31} x every rsq up to the number of segments per cycle x every segment over >= 6 cycles; representation filters (*, video id, audio id, no match), video and audio, Number / Timeline-Number / Timeline-Time, two and three simultaneous patterns; start_30, snr_7, start_1000/snr_3 (findings stream); calcStatusCode on random synthetic tables (1-6 segments, irregular durations, 5 timescales). traffic_: every pattern of 1-4 intervals over {u,d} with durations 1-3 at every second of 3 cycles, three patterns per URL selected by bu<i>; s/h patterns recognised by their delay; all patterns over {u,d,s,h} and random strings through CreateLossItvls/StateAt; BaseURL elements of the MPD. distinct = distinct (configuration, request) pairs for which the oracle confirmed the prescribed answer"
 	keys := make([]string, 0, len(c.Res.Inputs))
 	for k := range c.Res.Inputs {
 		keys = append(keys, k)
